@@ -317,6 +317,66 @@ pub struct Case {
     pub engines: Vec<String>,
     /// indices into the run's table of drawn toggle subsets
     pub subsets: Vec<usize>,
+    /// native `#[test]` bench appended to the text (module `tb_c03`)
+    pub tb: Option<String>,
+}
+
+pub const TB_NAME: &str = "tb_c03";
+
+/// A native test bench that replays the stimulus on `Top`: reset sequence,
+/// then per step the input assignments, one clock, a `$display` of every
+/// output; two `$assert`s on drawn guesses at the end, so that verdicts of
+/// both kinds occur.
+pub fn make_tb(d: &mut Draw, stim: &Stimulus) -> String {
+    use std::fmt::Write;
+    let ty = |w: usize| if w == 1 { "logic".to_string() } else { format!("logic<{w}>") };
+    let mut s = String::new();
+    writeln!(s, "#[test({TB_NAME})]\nmodule {TB_NAME} {{").unwrap();
+    s.push_str("    inst clk: $tb::clock_gen;\n    inst rst: $tb::reset_gen(clk);\n");
+    for (i, p) in stim.inputs.iter().enumerate() {
+        writeln!(s, "    var ti_{i}: {};", ty(p.width)).unwrap();
+    }
+    for (i, p) in stim.outputs.iter().enumerate() {
+        writeln!(s, "    var to_{i}: {};", ty(p.width)).unwrap();
+    }
+    s.push_str("    inst dut: Top (\n");
+    if let Some(c) = &stim.clock {
+        writeln!(s, "        {c}: clk,").unwrap();
+    }
+    if let Some(r) = &stim.reset {
+        writeln!(s, "        {r}: rst,").unwrap();
+    }
+    for (i, p) in stim.inputs.iter().enumerate() {
+        writeln!(s, "        {}: ti_{i},", p.name).unwrap();
+    }
+    for (i, p) in stim.outputs.iter().enumerate() {
+        writeln!(s, "        {}: to_{i},", p.name).unwrap();
+    }
+    s.push_str("    );\n    initial {\n        rst.assert();\n");
+    let fmt: String = stim.outputs.iter().map(|_| " %h").collect();
+    let args: String = (0..stim.outputs.len()).map(|i| format!(", to_{i}")).collect();
+    for (k, st) in stim.steps.iter().enumerate() {
+        if st.reset {
+            continue;
+        }
+        for (i, (p, v)) in stim.inputs.iter().zip(&st.values).enumerate() {
+            writeln!(s, "        ti_{i} = {}'h{v:x};", p.width).unwrap();
+        }
+        s.push_str("        clk.next(1);\n");
+        writeln!(s, "        $display(\"s{k}{fmt}\"{args});").unwrap();
+    }
+    for _ in 0..2 {
+        let o = d.below(stim.outputs.len().max(1) as u32) as usize;
+        if o < stim.outputs.len() {
+            let w = stim.outputs[o].width;
+            let bit = d.below(w as u32);
+            let guess = d.below(2);
+            let idx = if w == 1 { String::new() } else { format!("[{bit}]") };
+            writeln!(s, "        $assert(to_{o}{idx} == 1'b{guess}, \"guess {o}.{bit} %h\", to_{o});").unwrap();
+        }
+    }
+    s.push_str("        $finish();\n    }\n}\n");
+    s
 }
 
 fn cc_ok() -> bool {
@@ -325,6 +385,10 @@ fn cc_ok() -> bool {
 }
 
 fn pick_shapes(d: &mut Draw, n: usize, allow_cone: bool) -> Vec<&'static str> {
+    // development aid: always these shapes
+    if let Ok(f) = std::env::var("C03_FORCE_SHAPE") {
+        return shapes::SHAPES.iter().copied().filter(|s| f.split(',').any(|x| x == *s)).collect();
+    }
     let mut v = vec![];
     for _ in 0..n {
         // the last entry of SHAPES is the (large) cone template
@@ -422,6 +486,16 @@ pub fn gen_case(d: &mut Draw, n_subsets: usize, n_table: usize) -> Case {
         }
         classes.insert("stim:held_inputs".into());
     }
+    if d.chance(1, 3) || classes.contains("shape:big_cone") {
+        // come back to the input values of an earlier step
+        for i in 2..stim.steps.len() {
+            if d.chance(1, 3) {
+                let j = d.below(i as u32 - 1) as usize;
+                stim.steps[i].values = stim.steps[j].values.clone();
+            }
+        }
+        classes.insert("stim:revisited_inputs".into());
+    }
     let mut engines = vec!["interp".to_string(), "jit".to_string()];
     if d.chance(1, 4) {
         engines.push(if d.bool() { "jit+4st" } else { "interp+4st" }.to_string());
@@ -429,10 +503,16 @@ pub fn gen_case(d: &mut Draw, n_subsets: usize, n_table: usize) -> Case {
     if d.chance(1, 8) {
         engines.push(if d.bool() { "jit+noffopt" } else { "interp+noffopt" }.to_string());
     }
-    if cc_ok() && d.chance(1, 8) {
+    if cc_ok() && d.chance(1, 12) {
         engines.push("cc".to_string());
     }
     let subsets = (0..n_subsets).map(|_| d.below(n_table.max(1) as u32) as usize).collect();
+    let tb = if d.chance(1, 3) && !classes.contains("shape:big_cone") && !stim.outputs.is_empty() {
+        classes.insert("tb:native_test".into());
+        Some(make_tb(d, &stim))
+    } else {
+        None
+    };
     for e in &engines {
         classes.insert(format!("engine:{e}"));
     }
@@ -443,6 +523,7 @@ pub fn gen_case(d: &mut Draw, n_subsets: usize, n_table: usize) -> Case {
         excluded,
         engines,
         subsets,
+        tb,
     }
 }
 
@@ -556,7 +637,17 @@ pub fn compare(base: &Value, other: &Value, outputs: &[PortSpec]) -> Vec<Diff> {
 
 /// Structural summary of one worker (IR part + Cranelift histograms).
 fn summary_of(w: &WorkerOut) -> Value {
-    json!({"ir": w.result["sum"], "clif": w.clif})
+    let mut ir = w.result["sum"].clone();
+    if let Some(m) = ir.as_object_mut() {
+        for (_, v) in m.iter_mut() {
+            if let Some(o) = v.as_object_mut() {
+                // run-time counters, not structure
+                o.remove("_gate_skipped");
+                o.remove("_gate_ran");
+            }
+        }
+    }
+    json!({"ir": ir, "clif": w.clif})
 }
 
 fn case_json(text: &str, stim: &Stimulus, engines: &[String], tb: Option<&str>, summary: &str) -> Value {
@@ -725,7 +816,7 @@ pub fn one_case(run: &Run, d: &mut Draw) -> Outcome {
     let mut dce_excluded = false;
     if top_output_read_inside(&case.design) {
         case.classes.insert("known_shape:top_output_read_inside".into());
-        if !d.chance(1, 12) {
+        if !d.chance(1, 12) && std::env::var("C03_KEEP_KNOWN").is_err() {
             dce_excluded = true;
             case.classes.insert("excluded:dce_off_on_top_output_read_inside".into());
         }
@@ -735,7 +826,9 @@ pub fn one_case(run: &Run, d: &mut Draw) -> Outcome {
 
 pub fn evaluate(run: &Run, case: &Case, dce_excluded: bool) -> Outcome {
     let ctx = run.ctx;
-    let text = print_design(&case.design);
+    let tb_text = case.tb.clone().unwrap_or_default();
+    let tbn: Option<&str> = case.tb.as_ref().map(|_| TB_NAME);
+    let text = format!("{}{tb_text}", print_design(&case.design));
     let stim = &case.stim;
     if std::env::var("C03_DUMP").is_ok() {
         println!("{text}// stimulus: {}\n// engines: {:?}", stim_json(stim), case.engines);
@@ -745,11 +838,11 @@ pub fn evaluate(run: &Run, case: &Case, dce_excluded: bool) -> Outcome {
     // switch that rewrites the IR / the event statements the IR summary, a
     // switch inside the code generator the Cranelift one (and only the engines
     // that generate code), the multi-switch sets none
-    let all = write_case(&sc.path, "case.json", &case_json(&text, stim, &case.engines, None, "both"));
-    let ir_file = write_case(&sc.path, "case-ir.json", &case_json(&text, stim, &case.engines, None, "ir"));
-    let plain_file = write_case(&sc.path, "case-plain.json", &case_json(&text, stim, &case.engines, None, "none"));
+    let all = write_case(&sc.path, "case.json", &case_json(&text, stim, &case.engines, tbn, "both"));
+    let ir_file = write_case(&sc.path, "case-ir.json", &case_json(&text, stim, &case.engines, tbn, "ir"));
+    let plain_file = write_case(&sc.path, "case-plain.json", &case_json(&text, stim, &case.engines, tbn, "none"));
     let clif_engines: Vec<String> = case.engines.iter().filter(|e| !e.starts_with("interp")).cloned().collect();
-    let clif_file = write_case(&sc.path, "case-clif.json", &case_json(&text, stim, &clif_engines, None, "clif"));
+    let clif_file = write_case(&sc.path, "case-clif.json", &case_json(&text, stim, &clif_engines, tbn, "clif"));
 
     // ---- baseline
     let base = match run.pool.request(0, &all) {
@@ -878,13 +971,41 @@ pub fn evaluate(run: &Run, case: &Case, dce_excluded: bool) -> Outcome {
         if ok_engines.iter().any(|e| !base.result["runs"][e]["display"].as_str().unwrap_or("").is_empty()) {
             classes.push("display:text_compared".into());
         }
+        if base.result["sum"]["ir2"]["_gate_ran"].as_u64().unwrap_or(0) > 0 {
+            classes.push("cone_gate:segment_ran".into());
+        }
+        if base.result["sum"]["ir2"]["_gate_skipped"].as_u64().unwrap_or(0) > 0 {
+            classes.push("cone_gate:segment_skipped".into());
+        }
+        if let Some(t) = base.result["tb"].as_object() {
+            for (_, v) in t {
+                let c = if !v["ok"].as_bool().unwrap_or(false) {
+                    "tb_verdict:error"
+                } else if v["verdict"] == "pass" {
+                    "tb_verdict:pass"
+                } else {
+                    "tb_verdict:fail"
+                };
+                if !classes.iter().any(|x| x == c) {
+                    classes.push(c.to_string());
+                }
+                if std::env::var("C03_SHOW_TB").is_ok() {
+                    println!("TB {v}");
+                }
+            }
+        }
         let sample = format!("{text}// stimulus: {}\n// switches with a structural effect: {:?}", stim_json(stim), effects.iter().map(|&i| TOGGLES[i].name).collect::<Vec<_>>());
         return Outcome::pass(hash_str(&format!("{text}{}", stim_json(stim))), !effects.is_empty(), classes, sample);
     }
 
     // ---- a difference: reproduce, attribute, minimise, reproduce again
     let (set, df) = diffs[0].clone();
-    let tb: Option<&str> = None;
+    // a difference seen in the test bench only keeps the bench (and is not
+    // minimised); any other one is pursued on the design alone
+    let tb_only = df.what == "verdict" || df.detail.starts_with("test bench");
+    let tb: Option<&str> = if tb_only { tbn } else { None };
+    let tb_text = if tb_only { tb_text } else { String::new() };
+    let text = format!("{}{tb_text}", print_design(&case.design));
     if rerun_pair(&sc.path, "confirm", &text, stim, &df.engine, tb, &set, &df.what).is_none() {
         ctx.note_add("inconclusive/difference_not_reproduced", 1);
         return Outcome::skip("inconclusive: a difference did not reproduce when the two toggle sets were re-run alone");
@@ -946,11 +1067,11 @@ pub fn evaluate(run: &Run, case: &Case, dce_excluded: bool) -> Outcome {
     let mut n = 0;
     let mut pred = |dsg: &Design, st: &Stimulus| {
         n += 1;
-        let t = print_design(dsg);
+        let t = format!("{}{tb_text}", print_design(dsg));
         rerun_pair(&sc.path, &format!("min{n}"), &t, st, &df.engine, tb, &cset, &df.what).is_some()
     };
-    let (md, ms) = if pred(&case.design, stim) { minimize::minimize(&case.design, stim, &mut pred, budget) } else { (case.design.clone(), stim.clone()) };
-    let mtext = print_design(&md);
+    let (md, ms) = if !tb_only && pred(&case.design, stim) { minimize::minimize(&case.design, stim, &mut pred, budget) } else { (case.design.clone(), stim.clone()) };
+    let mtext = format!("{}{tb_text}", print_design(&md));
     let Some(mdf) = rerun_pair(&sc.path, "final", &mtext, &ms, &df.engine, tb, &cset, &df.what) else {
         ctx.note_add("inconclusive/difference_not_reproduced", 1);
         return Outcome::skip("inconclusive: a difference did not reproduce on the minimised design");
@@ -966,7 +1087,7 @@ pub fn evaluate(run: &Run, case: &Case, dce_excluded: bool) -> Outcome {
     );
     let input = json!({"veryl": mtext, "top": "Top", "stimulus": stim_json(&ms), "engine": df.engine,
                "env": cset.env().iter().map(|(k, v)| format!("{k}={v}")).collect::<Vec<_>>(),
-               "what": df.what, "detail": mdf.detail, "found_under": set.label, "signature": sig});
+               "tb": tb, "what": df.what, "detail": mdf.detail, "found_under": set.label, "signature": sig});
     run.cache.lock().unwrap().insert(sig.clone(), (msg.clone(), input.clone()));
     Outcome::fail(sig, msg, input)
 }
@@ -988,7 +1109,7 @@ fn replay_recorded(p: &Value) -> Outcome {
     }
     let set = if off.len() == 1 { ToggleSet::single(off[0]) } else { ToggleSet::subset(off.clone(), false) };
     let sc = vcore::util::Scratch::new("c03r");
-    match rerun_pair(&sc.path, "rec", &text, &stim, &engine, None, &set, &what) {
+    match rerun_pair(&sc.path, "rec", &text, &stim, &engine, p["tb"].as_str(), &set, &what) {
         Some(df) => Outcome::fail(
             p["signature"].as_str().map(|s| s.to_string()).unwrap_or_else(|| format!("{}:{}", pass_names(&off), what)),
             format!("recorded reproducer still differs\n  engine: {engine}\n  environment: {}\n  {}\n{text}", set.env_text(), df.detail),
@@ -1004,7 +1125,7 @@ pub fn run(ctx: &Ctx) {
     let _ = std::fs::create_dir_all(aot_dir());
     ctx.note("switches", json!(TOGGLES.iter().map(|t| format!("{}={} ({})", t.env, t.off, t.pass)).collect::<Vec<_>>()));
     ctx.run_payloads("recorded", replay_recorded);
-    let n = std::env::var("C03_CASES").ok().and_then(|s| s.parse::<usize>().ok()).unwrap_or(ctx.scale(160, 3000));
+    let n = std::env::var("C03_CASES").ok().and_then(|s| s.parse::<usize>().ok()).unwrap_or(ctx.scale(128, 3000));
     let threads = std::env::var("C03_THREADS").ok().and_then(|s| s.parse::<usize>().ok()).unwrap_or(0);
     let cfg = CaseCfg::cases(n).choices(10_000).shrink_iters(std::env::var("C03_SHRINK").ok().and_then(|s| s.parse().ok()).unwrap_or(6)).timeout_s(1500).threads(threads);
     // the run's table of toggle subsets: drawn from a choice sequence seeded
